@@ -357,6 +357,19 @@ func init() {
 		return a
 	})
 	add("str expiry mixed tx", 5, func(g *G) []string { return []string{"APPEND", g.Key(), g.Val()} })
+	// the empty string as a value of its own: written, appended to, appended, ranged over
+	add("str keys mixed", 2, func(g *G) []string {
+		switch g.R.Intn(5) {
+		case 0:
+			return []string{"SET", g.Key(), ""}
+		case 1, 2:
+			return []string{"APPEND", g.Key(), ""}
+		case 3:
+			return []string{"SETRANGE", g.Key(), "0", ""}
+		default:
+			return []string{"GETRANGE", g.Key(), "0", "-1"}
+		}
+	})
 	add("str mixed", 3, func(g *G) []string { return []string{"STRLEN", g.Key()} })
 	add("str mixed", 6, func(g *G) []string {
 		return []string{g.pick("GETRANGE", "SUBSTR"), g.Key(), g.Int(), g.Int()}
@@ -761,6 +774,8 @@ func init() {
 		return []string{"SELECT", g.pick("0", "1", "2", "15", "16", "-1", "1", "0", "abc")}
 	})
 	add("db", 3, func(g *G) []string { return []string{g.pick("FLUSHDB", "FLUSHALL")} })
+	// the modifiers: whatever they say, the flush is done when the reply is sent
+	add("db tx", 2, func(g *G) []string { return []string{g.pick("FLUSHDB", "FLUSHALL"), g.kw(g.pick("ASYNC", "SYNC", "ASYNC"))} })
 	// transactions that change the selected database half-way (D25) and flush what is selected by then
 	add("db", 4, func(g *G) []string { return []string{"MULTI"} })
 	add("db", 5, func(g *G) []string { return []string{"EXEC"} })
